@@ -18,6 +18,7 @@ CONSTANTS
   Dev_ContinueAfterUnlock = FALSE
   Dev_NoCheck = FALSE
   Dev_KeyLenFromZero = FALSE
+  Dev_AbortOnNegative = FALSE
   Dev_WriteMismatch = FALSE
 INVARIANT TypeOK
 INVARIANT D1_File
